@@ -14,6 +14,15 @@ COMMON_NOTE = ("Trusted: Coq 8.16.1 kernel (coqc full .vo build; vm_compute for 
 
 # id -> (claimed text, level note (specific), design ref)
 CHECKS = {
+    "C09": ("23 theorems of Props/C09.v (departure recurrence incl. rate 0 and FIFO, tail-drop iff in byte and packet mode, occupancy bound, "
+            "counters, exact byte occupancy, per-hop stamps, PortMonitor samples, never-late / work-conserving, RED EWMA recurrence and the "
+            "three RED regions, six refutations of the code as found) hold for all rates, limits/modes, thresholds/weights and all "
+            "admissible executions of the Gallina models Elem/Port.v + Elem/Red.v; the models are replayed action by action against the "
+            "real Port/REDPort/PortMonitor on 400 (quick) / 10000 (thorough) generated executions per run plus corpus cases.",
+            "Full after 5 fix: commits (a277047, fecbe41, 0d56be9, 8fdfee8, 56cf361). Not formalised: 'with probability p' (= refused iff "
+            "uniform u <= p(avg)). Assumed: sizes >= 0 (occupancy/never-late), min<=max<=qlimit (RED below-min clause), self.out set. "
+            "Scripted random.uniform / sampling distribution.",
+            "DESIGN.md section 4 C09, section 8"),
     "C10": ("14 theorems (C10_wire_spec: the timed deliveries/losses of every admissible execution are exactly the property's recurrence "
             "over arrivals and draws; delivery_time, fifo, delivery_instants_sorted, no_loss_exactly_once, lost_never_delivered, "
             "lost_delays_nobody, loss_iff, never_late; cable_independent(_frame), cable_commute, cable_wiring, cable_outputs_go_across) "
